@@ -105,9 +105,10 @@ def inversion(job, mode, basis):
             J1, J2 = lift(j[0]), lift(j[1])
             sc = [ys.t == J1 / (J1 + J2), J1 > 0, J2 > 0]
             cs = dom + leaf.conds() + sc
-            if job.twin_sat(tag + "/twin", cs, timeout=10) == z3.unsat:
+            if not job.feasible(cs):
                 continue  # e.g. the clamped branch of the Permeance constructor
             got += 1
+            job.twin_sat(tag + "/twin", cs, timeout=10)
             cg = ["GAMMA1_NRTL", "GAMMA2_NRTL", "PSAT1", "PSAT2"]
             st = job.prove(tag + "/inversion", cs, [lift(dc.permeances[0][0].value) != fs.P1.t, lift(dc.permeances[0][1].value) != fs.P2.t],
                            R_, inputs, fallback=fb, congruence=cg, timeout=30)
@@ -159,7 +160,7 @@ def from_permeances(job):
                     continue
                 dc, back = leaf.value
                 cs = dom + leaf.conds()
-                if job.twin_sat(tag + "/twin", cs, timeout=10) == z3.unsat:
+                if not job.feasible(cs):
                     continue
                 got += 1
                 kg1 = lambda v: v * factor(units, c1.molecular_weight) / factor(Units.kg_m2_h_kPa, c1.molecular_weight)
